@@ -222,3 +222,42 @@ add({"name": "extract_files_basename", "file": "dfs/cmd_extract_files.cc",
                (r'std::cerr << "refusing to extract " << output_origname\s*<< ": it has no usable name inside " << dest_dir << "\\n";', "g_diag++;  /* diagnostic text dropped */", 1),
                (r"const string output_body_file = dest_dir \+ output_basename;", "/* output_body_file = dest_dir + output_basename: see mon_create_file */", 1)],
      "dropped": ["diagnostic text"]})
+
+# ---- img_hxcmfm.cc (C07): header and track-list parsing on arbitrary file bytes ---------------------------
+HX = "dfs/img_hxcmfm.cc"
+DROP_SS = (r"std::ostringstream ss;.*?error = ss\.str\(\);", "g_diag++;  /* diagnostic text dropped */")
+add({"name": "hxc_le_word", "file": HX, "anchor": r"unsigned short le_word\(const byte \*d\)",
+     "sig": "static unsigned short hxc_le_word(const byte *d)", "rules": [(r"static_cast<unsigned short>\(", "(unsigned short)(", 1)]})
+add({"name": "hxc_le_quad", "file": HX, "anchor": r"unsigned long le_quad\(const byte \*d\)",
+     "sig": "static unsigned long hxc_le_quad(const byte *d)", "rules": [(r"static_cast<unsigned long>\(", "(unsigned long)(", 4)]})
+add({"name": "hxc_read_and_verify_header", "file": HX,
+     "anchor": r"std::optional<Header> read_and_verify_header\(DFS::FileAccess \*f, std::string& error\)",
+     "sig": "static struct opt_HxcHeader hxc_read_and_verify_header(struct FileAccess *f)",
+     "rules": [(r"std::vector<byte> header_data = f->read\(0, 19\);", "struct dynvec header_data = FileAccess_read_dyn(f, 0, 19); struct opt_HxcHeader ret_; ret_.has = 0;", 1),
+               (r"header_data\.size\(\)", "header_data.n", 1),
+               (r'error = "[^"]*";', "g_diag++;  /* diagnostic text dropped */", 1),
+               (r"header_data\.data\(\)", "header_data.d", ">=2"),
+               (DROP_SS[0], DROP_SS[1], 2),
+               (r"return std::nullopt;", "return ret_;", 3),
+               (r"Header result;", "struct HxcHeader result;", 1),
+               (r"std::copy\(header_data\.begin\(\), header_data\.begin\(\) \+ sizeof\(Header::signature\),\s*result\.signature\);", "bytes_copy7(result.signature, header_data.d);", 1),
+               ASSERT(1), (r"\ble_word\(", "hxc_le_word(", 3), (r"\ble_quad\(", "hxc_le_quad(", 1),
+               (r"if \(DFS::verbose\)\s*\{\s*std::cerr << result;\s*\}", "/* verbose dump dropped */", 1),
+               (r"return result;", "{ ret_.has = 1; ret_.val = result; return ret_; }", 1)],
+     "dropped": ["diagnostic text (ostringstream / hexdump)", "verbose header dump"]})
+add({"name": "hxc_get_track_metadata", "file": HX,
+     "anchor": r"std::map<TrackDataKey, TrackData> HxcMfmFile::get_track_metadata\(\)",
+     "sig": "static void hxc_get_track_metadata(struct HxcMfmFile *self)",
+     "rules": [(r"std::map<TrackDataKey, TrackData> result;", "/* result: ghost map (trackmap_insert) */", 1),
+               (r"header_\.", "self->header_.", 3),
+               (r"std::vector<byte> raw_metadata = file_->read\(pos, 11\);", "struct dynvec raw_metadata = FileAccess_read_dyn(self->file_, pos, 11);", 1),
+               (r"raw_metadata\.size\(\)", "raw_metadata.n", 1),
+               (r'throw InvalidHxcMfmFile\("[^"]*"\);', "{ VERIF_THROW(Other, 0); return; }", 2),
+               (r"raw_metadata\.data\(\)", "raw_metadata.d", 1),
+               (r"const TrackDataKey key\(le_word\(raw\), raw\[2\]\);", "const struct TrackDataKey key = { hxc_le_word(raw), raw[2] };", 1),
+               (r"const TrackData td\(le_quad\(raw\+3\), le_quad\(raw\+7\)\);", "const struct TrackData td = { hxc_le_quad(raw+3), hxc_le_quad(raw+7) };", 1),
+               (r"if \(DFS::verbose\)\s*\{.*?\}", "/* verbose dropped */", 2),
+               (r"result\.insert\(result\.end\(\), std::make_pair\(key, td\)\);", "trackmap_insert(key, td);", 1),
+               (r"return result;", "return;", 1),
+               (r"(for \(unsigned long pos = self->header_\.track_list_offset;\s*;\s*pos \+= 11\))", r"\1 TRACKLIST_LOOP_CONTRACT", 1)],
+     "dropped": ["verbose diagnostics"]})
